@@ -139,6 +139,7 @@ PROPS["C03"] = {
 PROPS["C04"] = {
     "lean_modules": ["Ogen.Props.C04"],
     "suites": ["c04"],
+    "facts": ["tmpl"],
     "timeout": 3600,
     "trusted_base": [
         KERNEL, HARNESS, GENCHECK,
